@@ -257,7 +257,8 @@ class Lexer:
                 self._advance()
 
         num_str = self.source[start : self.pos]
-        if is_float:
+        if is_float or len(num_str) > 25:
+            # (a long run of digits rounds to a double anyway; int() limits its input length)
             return float(num_str)
         return norm_number(int(num_str))
 
